@@ -54,7 +54,13 @@ Definition modelled_sites : list string := [
   "serve.go|validatePaging|index|_[""start""]|!(_ == nil || _ == nil)";
   "serve.go|validatePaging|index|_[0]|!(!_ && !_) && !(_ == nil || _ == nil) && _ && len(_) > 0";
   "tokens.go|TokenListHandler|slice|_[:_]|!(_ != nil) && _ > 0 && _ < len(_)";
-  "tokens.go|TokenListHandler|slice|_[_:]|!(_ != nil)"
+  "tokens.go|TokenListHandler|slice|_[_:]|!(_ != nil)";
+  "update.go|UpdateUserHandler|index|_[""name""]|";
+  "update.go|UpdateUserHandler|index|_[0]|!(_ != _) && !(_ != nil) && !(_(_) == """") && !(_[0] == '+') && len(_) > 0 && range _";
+  "update.go|UpdateUserHandler|index|_[0]|!(_ != _) && !(_ != nil) && !(_(_) == """") && len(_) > 0 && range _";
+  "update.go|UpdateUserHandler|index|_[_]|!(_ != _) && !(_ != nil) && !(_(_, ""ego."") && !_ && !_(_)) && _ && len(_) > 0 && range _";
+  "update.go|UpdateUserHandler|index|_[_]|!(_ != _) && !(_ != nil) && len(_) > 0 && range _";
+  "update.go|UpdateUserHandler|slice|_[1:]|!(_ != _) && !(_ != nil) && !(_(_) == """") && _[0] == '+' || _[0] == '-' && len(_) > 0 && range _"
 ].
 
 Definition sites_included (found known : list string) : bool :=
